@@ -410,6 +410,20 @@ func (s *Solver) Check(pc []*Term, extra *Term) SatResult {
 	}
 	s.buf.WriteString("(check-sat)\n")
 	s.flush()
+	// hard watchdog: the solvers' own time limit is cooperative and some preprocessing steps never look at it
+	// (a single query of C13's thorough tier ran for 18 CPU-minutes). Twice the budget plus 10 s, then the
+	// process is killed, the answer is "unknown" and the next query starts a fresh process.
+	budget := s.curTimeout
+	if budget <= 0 {
+		budget = s.timeoutMs
+	}
+	proc := s.cmd.Process
+	watchdog := time.AfterFunc(time.Duration(2*budget)*time.Millisecond+10*time.Second, func() {
+		if proc != nil {
+			proc.Kill()
+		}
+	})
+	defer watchdog.Stop()
 	res := Unknown
 	for {
 		line := s.readLine()
